@@ -47,6 +47,7 @@ def srcSeq : Src α → LSeq α
   | .chain xss => ⟨xss.flatten, []⟩
   | .const v => ⟨[], [v]⟩
   | .obj _ => ⟨[], []⟩
+  | .mixed pre _ post => ⟨pre ++ post, []⟩
 
 /-- the sequence an argument denotes; an existing Stream is moved, a hub gives one use -/
 def specSrc (sp : SPool α) : Src α → Except String (SPool α × LSeq α)
@@ -54,6 +55,12 @@ def specSrc (sp : SPool α) : Src α → Except String (SPool α × LSeq α)
     match sp[j]? with
     | some (.stream s) => .ok (sp.set j .dead, s)
     | some (.hub s (u + 1)) => .ok (sp.set j (.hub s u), s)
+    | some (.hub _ 0) => .error "IndexError"
+    | _ => .error "noobj"
+  | .mixed pre j post =>
+    match sp[j]? with
+    | some (.stream s) => .ok (sp.set j .dead, ((LSeq.fin pre).append s).append (LSeq.fin post))
+    | some (.hub s (u + 1)) => .ok (sp.set j (.hub s u), ((LSeq.fin pre).append s).append (LSeq.fin post))
     | some (.hub _ 0) => .error "IndexError"
     | _ => .error "noobj"
   | s => .ok (sp, srcSeq s)
@@ -161,5 +168,46 @@ def specRun : SPool α → List (Op α) → List (Option (Obs α))
     match specStep sp op with
     | none => [none]
     | some (sp', o) => some o :: specRun sp' ops
+
+/-! ### the caller's containers (`hist`) in the list model
+
+Lists are values: a container handed out is a new value of the caller, a list passed in is
+its contents at the call; the streams and the caller's lists never share anything. -/
+
+structure HSp (α : Type) where
+  sp : SPool α
+  lists : List (List α)
+
+def specKeep (s : HSp α) (o : Op α) : Option (HSp α × Obs α) :=
+  match specStep s.sp o with
+  | none => none
+  | some (sp', ob) => some (⟨sp', keep s.lists ob⟩, ob)
+
+def hspecStep (s : HSp α) : HOp α → Option (HSp α × Obs α)
+  | .op o => specKeep s o
+  | .lit xs => some (⟨s.sp, s.lists ++ [xs]⟩, .new s.lists.length)
+  | .edit j m =>
+    match s.lists[j]? with
+    | none => some (s, .err "nolist")
+    | some xs => some (⟨s.sp, s.lists.set j (m.apply xs)⟩, .unit)
+  | .newRef j =>
+    match s.lists[j]? with
+    | none => some (s, .err "nolist")
+    | some xs => specKeep s (.new (.list xs))
+  | .appendRef i j =>
+    match s.lists[j]? with
+    | none => some (s, .err "nolist")
+    | some xs => specKeep s (.append i (.list xs))
+  | .thubRef j n =>
+    match s.lists[j]? with
+    | none => some (s, .err "nolist")
+    | some xs => specKeep s (.thub (.list xs) n)
+
+def hspecRun : HSp α → List (HOp α) → List (Option (Obs α)) × List (List α)
+  | s, [] => ([], s.lists)
+  | s, hop :: hops =>
+    match hspecStep s hop with
+    | none => ([none], s.lists)
+    | some (s', o) => let r := hspecRun s' hops; (some o :: r.1, r.2)
 
 end ALV.C03
